@@ -94,7 +94,11 @@ def explicit_raise_in_prophyc(exc):
             break
     where = "%s:%s" % (last.filename.rsplit("/", 1)[-1], last.name)
     in_prophyc = "/prophyc/" in last.filename
-    return in_prophyc and (last.line or "").strip().startswith("raise"), where
+    line = (last.line or "").strip()
+    # "raise X(...)" counts only when X is the class that actually escaped: an AttributeError raised while the
+    # argument of "raise ParseError(... % p.value)" is evaluated is not a deliberate raise
+    deliberate = line.startswith("raise") and (("raise %s(" % type(exc).__name__) in line or line == "raise")
+    return in_prophyc and deliberate, where
 
 
 class CompRun(object):
